@@ -30,19 +30,24 @@ def propagate_viability_from_node(node: AttackGraphNode) -> None:
         'Propagate viability from "%s"(%d) with viability status %s.',
         node.full_name, node.id, node.is_viable
     )
-    for child in node.children:
-        original_value = child.is_viable
-        if child.type == 'or':
-            # Evaluate before assigning, the child can be its own parent
-            is_viable = False
-            for parent in child.parents:
-                is_viable = is_viable or parent.is_viable
-            child.is_viable = is_viable
-        if child.type == 'and':
-            child.is_viable = False
+    # Iterate with an explicit worklist, long chains of attack steps would
+    # otherwise exceed the recursion limit.
+    worklist = [node]
+    while worklist:
+        current_node = worklist.pop()
+        for child in current_node.children:
+            original_value = child.is_viable
+            if child.type == 'or':
+                # Evaluate before assigning, the child can be its own parent
+                is_viable = False
+                for parent in child.parents:
+                    is_viable = is_viable or parent.is_viable
+                child.is_viable = is_viable
+            if child.type == 'and':
+                child.is_viable = False
 
-        if child.is_viable != original_value:
-            propagate_viability_from_node(child)
+            if child.is_viable != original_value:
+                worklist.append(child)
 
 def _is_necessary_for_children(node: AttackGraphNode) -> bool:
     """
@@ -80,27 +85,32 @@ def propagate_necessity_from_node(node: AttackGraphNode) -> None:
         node.full_name, node.id, node.is_necessary
     )
 
-    if _is_necessary_for_children(node):
-        # Do not propagate unnecessary state from nodes that have a TTC
-        # probability distribution associated with them.
-        return
+    # Iterate with an explicit worklist, long chains of attack steps would
+    # otherwise exceed the recursion limit.
+    worklist = [node]
+    while worklist:
+        current_node = worklist.pop()
+        if _is_necessary_for_children(current_node):
+            # Do not propagate unnecessary state from nodes that have a TTC
+            # probability distribution associated with them.
+            continue
 
-    for child in node.children:
-        original_value = child.is_necessary
-        if child.type == 'or':
-            child.is_necessary = False
-        if child.type == 'and':
-            # Evaluate before assigning, the child can be its own parent
-            is_necessary = False
-            for parent in child.parents:
-                is_necessary = is_necessary or \
-                    _is_necessary_for_children(parent)
-            child.is_necessary = is_necessary
+        for child in current_node.children:
+            original_value = child.is_necessary
+            if child.type == 'or':
+                child.is_necessary = False
+            if child.type == 'and':
+                # Evaluate before assigning, the child can be its own parent
+                is_necessary = False
+                for parent in child.parents:
+                    is_necessary = is_necessary or \
+                        _is_necessary_for_children(parent)
+                child.is_necessary = is_necessary
 
-        # TODO: Update TTC for child attack step before if it is not necessary
-        # before propagating it further.
-        if child.is_necessary != original_value:
-            propagate_necessity_from_node(child)
+            # TODO: Update TTC for child attack step before if it is not
+            # necessary before propagating it further.
+            if child.is_necessary != original_value:
+                worklist.append(child)
 
 
 def evaluate_viability(node: AttackGraphNode) -> None:
